@@ -4,12 +4,52 @@ All oracles are round trips against the record of what was written: the text han
 independent mini-parsers of `pbt/ref/io19.py` (raw decimal tokens), the expected values are float() of those
 tokens.  Where the library *writer* produced the text, the tokens are additionally compared with the numbers given
 to the writer (six decimals => half a unit of the sixth decimal).
+
+CLAUSES (statement / quantifier axis -> facet; deciding assertion; populated class tags)
+  a1 dump-header writer + atom lines read back: same timestep        -> header_dump; exact integers; ts-small / ts-ge-2^31 /
+       ts-ge-2^53 (to 2^63-1-1e8), ints-python / ints-numpy
+  a2 ... same particle count                                          -> header_dump; N 1..12, N1, size-boundary-<N> (seeded atoms
+       around block sizes 32..256); data_header: N-small / N-big (to 1e12)
+  a3 ... same box bounds, 2D and 3D                                   -> header_dump, data_header; tokens six decimals and within 5e-7
+       of the numbers given, read back through read_lammps_wrapper / DumpReader; bounds-ndarray / -list / -tuple /
+       -float32 / -int64 / -int-list (hand-built integer boxes), bounds-wide, bounds-rounded / -exact-6dec; d2 (dummy z) / d3
+  a4 additional-column names                                          -> header_dump: addson-None / -0 / -1..3 / -4+ (any names incl.
+       brackets, up to 8, one or two blanks between them)
+  b  molecule-centre reader: exactly the atoms whose type is a key, relabelled by the values, id order kept
+       -> centertype (+ reader_sizes, aux_sequence); select-none / -some / -all, one-centre-selected, key-absent, keys-merged,
+       relabel / relabel-identity, zero-based / wide values, labels-1..K / labels-sparse (atom types {1, 7, 40, 999}: the
+       reader only looks labels up), map-int / map-np.int64 / map-np.int32-values, style x / xs / xu, wrap-inside /
+       -mixed / -all-low / -all-high
+  c1 column reader: requested columns by atom id for every frame      -> columns (+ reader_sizes, aux_sequence); ncolumnsids1..8,
+       columns-not-ascending, column-repeated, column-id-two-digits (up to 12 trailing columns), base / extra columns,
+       extra-element (a non-numeric trailing column shifting the others), ids-list / -tuple / -int64 / -int32 /
+       -float64 / -list-np-int (value-equal arguments the unchanged reader accepts), tilted-header, 2d-with-z-column
+  c2 read_additions (0-based column, equal N)                         -> columns; additions-base-col / -extra-col, -ncol-np-int64
+  bc text layer of the dump readers                                   -> layout-plain / -lammps / -mixed, eol-crlf, sep-double / -tab /
+       -mixed / -pad, trail-blank, no-final-newline, fmt* (scientific), name-abs / -bare / -sub / -space
+  bc sizes                                                            -> reader_sizes: size-boundary-<N>, frames-boundary-<T>, N1,
+       long-file-*; reader_sizes_large (thorough: B to 1024, N = 5000 / 20000)
+  bc results handed out earlier stay what they were; state between calls -> aux_sequence (re-used file names, same reader
+       with other arguments, shapes-shared), every result copied at return and examined again after the last call
+  d1 HOOMD frames: types + 1, positions cut to the dimension           -> gsd; typeid-uint32 / -int32 / -int64, position-float32 /
+       -float64, d2 with z != 0, frames1..4, frames-boundary-<T>, size-boundary-<N>, step-int / -uint64
+  d2 DCD positions frame by frame                                     -> gsd (dcd), gsd_dcd_path (which file is opened)
+  d3 second evaluation of one trajectory object, results kept          -> gsd: every result re-examined after all calls
+  e  log reader: every complete thermodynamic section in full          -> log, log_short_tail, log_quoted_text, log_sizes, log_sequence;
+       sections0..4, sections-boundary-<k> (to 129 quick / 257 thorough), rows-boundary-<n> (to 257 quick / 2049
+       thorough), columns-12+ (20 columns), step-small / step-ge-2^31 / step-ge-2^53 (integer Step columns compared as
+       integers), eol-crlf, trail-blank (older LAMMPS ends thermo lines with a blank), right-aligned rows, text
+       between, odd quotes, interrupted tail; log_sequence: the same file name rewritten, all DataFrames kept
+Not in the domain: indented thermo headers (DESIGN scope decision), WARNING lines inside a section, multi-line thermo
+output, empty log files, non-numeric columns requested from the column readers, blank lines after the last frame
+of a dump, nested lists / float scalars as column ids (the unchanged readers raise).
 """
 from __future__ import annotations
 
 import os
 import re
 import sys
+import zlib
 import types as _types
 
 import numpy as np
@@ -34,7 +74,11 @@ RULE = ("(a) library header writers -> independent ITEM / data-header parser and
         "reader, x 0-based column -> read_additions; (d) duck-typed HOOMD frame sequences (+ DCD object) -> read_gsd / "
         "read_gsd_dcd and the DumpReader GSD / GSD_DCD dispatch with stand-in gsd / mdtraj modules; (e) generated thermo "
         "logs with 0..4 complete sections (+ interrupted trailing section) -> read_lammpslog.  Every file reader is "
-        "also driven through DumpReader(filetype=...).  Non-trivial rules are stated per facet.")
+        "also driven through DumpReader(filetype=...).  Round 3: text layouts (LF / CRLF, blanks / tabs / padded columns, "
+        "trailing blanks, no final newline, LAMMPS' own number formats), file-name forms, value-equal argument "
+        "representations, sparse type labels, size-boundary classes (atoms, frames, rows, sections around block sizes; "
+        "seeded synthesis), timesteps / step numbers to 2^63, call sequences with every result kept and re-examined.  "
+        "Non-trivial rules are stated per facet.")
 ASSUMPTIONS = [
     "well-formed files only: ITEM headers at column 0, ids a permutation of 1..N in every frame, same column layout in "
     "all frames of a file, orthogonal boxes for the molecule-centre reader, equal N in all frames for read_additions "
@@ -45,6 +89,8 @@ ASSUMPTIONS = [
     "x style: a coordinate within 1e-9 (relative) of a box face may be returned as either periodic image",
     "expected values are float() of the written decimal tokens; comparison rtol 1e-12 (pandas' fast float parser and "
     "numpy string conversion may differ from float() in the last bit)",
+    "size-boundary classes are built by numpy's Generator from a Hypothesis-drawn seed; only numeric columns are "
+    "requested from the column readers; integer Step columns are compared as integers, float ones with rtol 1e-12",
     "gsd / mdtraj are not installed: frames are duck-typed objects with the attributes the HOOMD schema names "
     "(configuration.{step,dimensions,box}, particles.{N,position,typeid}); DCD object = read() -> (xyz, lengths, angles)",
 ]
@@ -61,7 +107,9 @@ FUZZ = {
 MANIFEST = {
     "text": ("Generated-input round trips for every reader/writer named in C19: dump-header and data-header writers "
              "(facets header_dump, data_header), molecule-centre reader (centertype), column readers (columns), "
-             "HOOMD frame conversion incl. DCD (gsd, gsd_dcd_path), LAMMPS log reader (log, log_short_tail); each reader also via "
+             "HOOMD frame conversion incl. DCD (gsd, gsd_dcd_path), LAMMPS log reader (log, log_short_tail, log_quoted_text, "
+             "log_sizes, log_sequence); size-boundary classes (reader_sizes, log_sizes) and call sequences with results kept "
+             "alive (aux_sequence, log_sequence); text layouts incl. CRLF / tabs / LAMMPS' own formats; each reader also via "
              "DumpReader dispatch"),
     "note": ("oracle = independent mini-parsers/encoders in pbt/ref/io19.py working on the decimal tokens written; "
              "well-formed files only; log header at column 0; gsd/mdtraj replaced by duck-typed stand-ins; "
@@ -71,32 +119,107 @@ MANIFEST = {
 }
 
 FORMATS = ["%.17g", "%.6f", "%.10e", "%g", "%.3f"]
+ELEMENTS = ["Si", "O", "H", "C", "Fe", "Cu", "Zr"]
+BIG_STEPS = [2**31 - 1, 2**31, 2**32 + 7, 2**53 - 1, 2**53 + 1, 2**62 + 12345, 2**63 - 1 - 10**8]
+BLOCKS_QUICK = [32, 64, 100, 128, 256]
+BLOCKS_ALL = [32, 50, 64, 100, 128, 200, 256, 500, 512, 1000, 1024]
 FLAGS = ["pp pp pp", "pp ff pp", "ff ff ff", "pp pp fs", "pm pm pp", "fs ss mm"]
 EXTRA_NAMES = ["vx", "vy", "vz", "c_pe", "q", "ix", "iy", "radius", "fx", "v_myvar", "mass", "mol", "order", "Q6"]
 ADDSON = ["", "order", "order Q6", "vx vy vz", "c_pe", "q radius", None]
+ADDSON_NAMES = EXTRA_NAMES + ["c_pe[1]", "v_x2", "f_ave[3]", "i_flag", "d_rho", "c_sna[12]", "proc", "element_id"]
 SIX = re.compile(r"-?\d+\.\d{6}$")
 
 
 # ----------------------------------------------------------------------------- generators
 
 
+def boundary_sizes(blocks):
+    out = []
+    for B in blocks:
+        out += [B - 1, B, B + 1, 2 * B - 1, 2 * B + 1, B + B // 3]
+    return sorted(set(out))
+
+
+def spread(items, *entropy):
+    """Element of `items` chosen by a hash of everything else drawn for the case (Hypothesis re-uses parts of earlier
+    examples, so sizes drawn with sampled_from come in runs and whole boundary classes stay empty in a short run)."""
+    return items[zlib.crc32(repr(entropy).encode()) % len(items)]
+
+
 @st.composite
-def atoms_st(draw, d, style, nextra, N=None, kmax=9):
+def layout_st(draw, eols=("\n", "\r\n")):
+    """Text layout of a generated dump: plain (one blank, LF) | exactly what LAMMPS prints (bounds %.16e, a trailing
+    blank after the ATOMS header and every atom line) | mixed (CRLF as in the repository's sample files, two blanks,
+    tabs, right-aligned columns, no newline after the last line)."""
+    kind = draw(st.sampled_from(["plain", "plain", "lammps", "mixed", "mixed"]))
+    if kind == "plain":
+        lay = dict(io19.LAYOUT_PLAIN)
+    elif kind == "lammps":
+        lay = dict(io19.LAYOUT_LAMMPS)
+        lay["eol"] = draw(st.sampled_from(["\n"] + list(eols)))
+    else:
+        lay = {"eol": draw(st.sampled_from(list(eols))), "sep": draw(st.sampled_from(["1", "2", "tab", "mixed", "pad"])),
+               "trail": draw(st.booleans()), "final_newline": draw(st.sampled_from([True, True, False])),
+               "bfmt": draw(st.sampled_from([None, "%.16e", "%g"])), "kind": "mixed"}
+    return lay
+
+
+def layout_tags(lay):
+    tags = ["layout-" + lay.get("kind", "plain")]
+    if lay["eol"] == "\r\n":
+        tags.append("eol-crlf")
+    if lay["sep"] != "1":
+        tags.append("sep-" + {"2": "double", "tab": "tab", "mixed": "mixed", "pad": "pad"}[lay["sep"]])
+    if lay["trail"]:
+        tags.append("trail-blank")
+    if not lay["final_newline"]:
+        tags.append("no-final-newline")
+    return tags
+
+
+def file_name(kind, stem):
+    """File-name forms callers use (cwd = scratch directory of the shard): absolute, bare, in a sub-folder, with blanks."""
+    if kind == "abs":
+        return os.path.join(os.getcwd(), stem)
+    if kind == "bare":
+        return stem
+    rel = os.path.join("sub/run.1", stem) if kind == "sub" else "my " + stem.replace(".", " file.", 1)
+    if os.path.dirname(rel):
+        os.makedirs(os.path.dirname(rel), exist_ok=True)
+    return rel
+
+
+NAME_KINDS = ["abs", "abs", "bare", "sub", "space"]
+
+
+def write_text(fn, text):
+    with open(fn, "w", newline="") as f:     # byte for byte: CRLF stays CRLF
+        f.write(text)
+
+
+@st.composite
+def atoms_st(draw, d, style, nextra, N=None, kmax=9, labels=None):
     if N is None:
         N = draw(st.integers(1, 12))
     ids = np.array(draw(st.permutations(range(1, N + 1))), dtype=int)
     if draw(st.integers(0, 5)) == 0:
         ids = np.arange(1, N + 1)
-    types = np.array(draw(st.lists(st.integers(1, kmax), min_size=N, max_size=N)), dtype=int)
+    tpool = st.integers(1, kmax) if labels is None else st.sampled_from(list(labels))
+    types = np.array(draw(st.lists(tpool, min_size=N, max_size=N)), dtype=np.int64)
     f = draw(frac_st(N, d))
     exc = np.zeros((N, d))
-    if style == "x" and draw(st.booleans()):
+    wrapmode = draw(st.sampled_from(["inside", "inside", "mixed", "mixed", "all-low", "all-high"])) if style == "x" else None
+    if wrapmode == "mixed":
         exc = draw(hnp.arrays(np.float64, (N, d), elements=st.one_of(st.just(0.0), st.just(0.0), fl(-0.99, 0.99))))
+    elif wrapmode in ("all-low", "all-high") and N:
+        # every coordinate of every atom outside the box on the same side (batch-level short-cuts)
+        u = draw(hnp.arrays(np.float64, (N, d), elements=fl(0.001, 0.98)))
+        exc = (-u - f) if wrapmode == "all-low" else (1.0 + u - f)
     elif style == "xu":
         exc = draw(hnp.arrays(np.float64, (N, d), elements=st.one_of(st.just(0.0), fl(-5.0, 5.0)))).round(3)
     extras = draw(hnp.arrays(np.float64, (N, nextra), elements=st.one_of(
         fl(-100.0, 100.0), st.integers(-50, 50).map(float), st.sampled_from([0.0, 1e-5, -2.5e7, 1e12]))))
-    return {"ids": ids, "types": types, "f": f, "exc": exc, "extras": extras}
+    return {"ids": ids, "types": types, "f": f, "exc": exc, "extras": extras, "wrapmode": wrapmode}
 
 
 @st.composite
@@ -114,7 +237,7 @@ def box_st(draw, d, wide=False):
 
 
 def steps_st(draw, T):
-    t0 = draw(st.one_of(st.just(0), st.integers(0, 10 ** 9)))
+    t0 = draw(st.one_of(st.just(0), st.integers(0, 10 ** 9), st.integers(0, 10 ** 9), st.sampled_from(BIG_STEPS)))
     # schedules a simulation can write: increasing (usual); the same step written again (run 0, minimisation,
     # restart); a counter that goes back (reset_timestep).  Every frame is promised whatever its TIMESTEP says.
     sched = draw(st.sampled_from(["increasing", "increasing", "increasing", "repeats", "any-order"])) if T > 1 else "single"
@@ -130,29 +253,40 @@ def steps_st(draw, T):
 
 
 @st.composite
-def dump_case_st(draw, styles=("x", "xs", "xu"), frames=(1, 3), tilted=False, kmax=9, maybe_fixed_n=False):
+def dump_case_st(draw, styles=("x", "xs", "xu"), frames=(1, 3), tilted=False, kmax=9, maybe_fixed_n=False, labels=None,
+                 many_extras=False):
     d = draw(st.sampled_from([2, 3]))
     style = draw(st.sampled_from(list(styles)))
     fmt = draw(st.sampled_from(FORMATS))
     T = draw(st.integers(*frames))
     nextra = draw(st.integers(0, 3))
+    if many_extras and draw(st.integers(0, 4)) == 0:
+        nextra = draw(st.integers(4, 12))       # two-digit column numbers
     names = draw(st.lists(st.sampled_from(EXTRA_NAMES), min_size=nextra, max_size=nextra, unique=True))
     zcol = draw(st.booleans()) if d == 2 else False
     fixed = draw(st.booleans()) if maybe_fixed_n else False
-    nfix = draw(st.integers(1, 10)) if fixed else None
+    nfix = draw(st.one_of(st.integers(1, 10), st.integers(1, 2))) if fixed else None
     steps = steps_st(draw, T)
+    # a non-numeric trailing column (dump custom ... element), before or after the numeric ones, in every frame
+    with_elem = draw(st.integers(0, 3)) == 0
+    elem_first = draw(st.booleans())
     fr = []
     for k in range(T):
         lo, L, okind = draw(box_st(d))
-        a = draw(atoms_st(d, style, nextra, N=nfix, kmax=kmax))
+        a = draw(atoms_st(d, style, nextra, N=nfix, kmax=kmax, labels=labels))
         tilt = None
         if tilted and draw(st.booleans()):
             tilt = [draw(nice_float(-0.5, 0.5)) * L[0], draw(nice_float(-0.5, 0.5)) * L[0],
                     draw(nice_float(-0.5, 0.5)) * L[1]]
+        elem = None
+        if with_elem:
+            elem = {"values": draw(st.lists(st.sampled_from(ELEMENTS), min_size=len(a["ids"]), max_size=len(a["ids"]))),
+                    "first": elem_first}
         a.update(timestep=steps[k], lo=lo, L=L, origin=okind, tilt=tilt, names=names, zcol=zcol,
-                 flags=draw(st.sampled_from(FLAGS)))
+                 flags=draw(st.sampled_from(FLAGS)), elem=elem)
         fr.append(a)
-    return {"d": d, "style": style, "fmt": fmt, "frames": fr, "fixed_n": fixed}
+    return {"d": d, "style": style, "fmt": fmt, "frames": fr, "fixed_n": fixed, "layout": draw(layout_st()),
+            "fname": draw(st.sampled_from(NAME_KINDS))}
 
 
 # ----------------------------------------------------------------------------- shared comparison
@@ -167,7 +301,7 @@ def parsed(text, what):
 
 def snaps_ok(tag, snaps, n):
     require(snaps is not None and hasattr(snaps, "nsnapshots") and hasattr(snaps, "snapshots"),
-            f"{tag}: result is not a Snapshots object: {snaps!r:.200}")
+            lambda: f"{tag}: result is not a Snapshots object: {snaps!r:.200}")
     require(snaps.nsnapshots == n, f"{tag}: nsnapshots = {snaps.nsnapshots}, {n} frames were written")
     require(len(snaps.snapshots) == n, f"{tag}: {len(snaps.snapshots)} snapshots returned for {n} frames")
 
@@ -212,12 +346,25 @@ def cmp_frame(t, s, e, box=True):
 
 def frame_tags(case):
     fr = case["frames"]
-    tags = [f"d{case['d']}", "style-" + case.get("style", "x"), f"frames{len(fr)}", "fmt" + case.get("fmt", "")]
+    tags = [f"d{case['d']}", "style-" + case.get("style", "x"), f"frames{len(fr)}" if len(fr) <= 4 else "frames5+",
+            "fmt" + case.get("fmt", "")]
     shuffled = any(not np.array_equal(f["ids"], np.arange(1, len(f["ids"]) + 1)) for f in fr)
     tags.append("shuffled" if shuffled else "ordered")
     if len({len(f["ids"]) for f in fr}) > 1:
         tags.append("N-varies")
     tags.append("origin" if any(np.any(np.asarray(f["lo"]) != 0) for f in fr) else "origin0")
+    if "layout" in case:
+        tags += layout_tags(case["layout"])
+    if "fname" in case:
+        tags.append("name-" + case["fname"])
+    if any(f.get("elem") is not None for f in fr):
+        tags.append("extra-element")
+    if any(len(f["ids"]) == 1 for f in fr):
+        tags.append("N1")
+    for m in sorted({f.get("wrapmode") for f in fr if f.get("wrapmode")}):
+        tags.append("wrap-" + m)
+    tmax = max(int(f["timestep"]) for f in fr)
+    tags.append("ts-ge-2^53" if tmax >= 2**53 else "ts-ge-2^31" if tmax >= 2**31 else "ts-small")
     return tags, shuffled
 
 
@@ -231,25 +378,44 @@ def header_case_st(draw):
     T = draw(st.integers(1, 3))
     steps = steps_st(draw, T)
     addson = draw(st.sampled_from(ADDSON))
+    if draw(st.integers(0, 2)) == 0:      # any additional-column names, any number of them
+        addson = draw(st.sampled_from([" ", "  "])).join(
+            draw(st.lists(st.sampled_from(ADDSON_NAMES), min_size=1, max_size=8, unique=True)))
     nextra = len(addson.split()) if addson else 0
+    container = draw(st.sampled_from(["ndarray", "ndarray", "list", "float32", "tuple", "int64", "int-list"]))
+    # particle numbers around block sizes (seeded atom arrays) as their own class
+    big = draw(st.integers(0, 7)) == 0
     fr = []
     for k in range(T):
         lo, L, okind = draw(box_st(d, wide=True))
         if draw(st.integers(0, 3)) == 0:  # bounds that carry more than six decimals
             lo = lo + draw(fl(-1.0, 1.0))
             L = L + draw(fl(0.0, 1.0))
-        a = draw(atoms_st(d, "x", nextra))
+        if container in ("int64", "int-list"):   # a hand-built integer box: np.array([[0, 10], [0, 10], [0, 10]])
+            lo, L = np.round(lo), np.maximum(1.0, np.round(L))
+        if big and k == 0:
+            N = draw(st.sampled_from(boundary_sizes(BLOCKS_QUICK)))
+            rng = np.random.default_rng(draw(st.integers(0, 2**32 - 1)))
+            a = {"ids": (rng.permutation(N) + 1).astype(int), "types": rng.integers(1, 4, N).astype(np.int64),
+                 "f": rng.random((N, d)), "exc": np.zeros((N, d)), "extras": rng.uniform(-100, 100, (N, nextra))}
+        else:
+            a = draw(atoms_st(d, "x", nextra))
         a.update(timestep=steps[k], lo=lo, L=L, origin=okind)
         fr.append(a)
-    return {"d": d, "fmt": fmt, "frames": fr, "addson": addson, "style": "x",
-            "container": draw(st.sampled_from(["ndarray", "list", "float32"])),
-            "np_int": draw(st.booleans())}
+    lay = draw(layout_st(eols=("\n",)))       # the writer's own lines end in LF; the atom lines follow suit
+    lay["final_newline"] = True
+    return {"d": d, "fmt": fmt, "frames": fr, "addson": addson, "style": "x", "container": container,
+            "np_int": draw(st.booleans()), "layout": lay, "fname": draw(st.sampled_from(NAME_KINDS)), "big": big}
 
 
 def make_bounds(lo, L, container):
     b = np.stack([lo, lo + L], axis=1)
     if container == "float32":
         b = b.astype(np.float32)
+    if container == "int64":
+        b = b.astype(np.int64)
+    if container == "int-list":
+        return [[int(v) for v in r] for r in b], b
     if container == "list":
         return b.tolist(), b
     if container == "tuple":
@@ -275,13 +441,13 @@ def check_header_dump(case):
         barg, b = make_bounds(fr["lo"], fr["L"], case["container"])
         N = len(fr["ids"])
         ts = np.int64(fr["timestep"]) if case["np_int"] else int(fr["timestep"])
-        kw = dict(timestep=ts, nparticle=N, boxbounds=barg)
+        kw = dict(timestep=ts, nparticle=np.int64(N) if case["np_int"] else N, boxbounds=barg)
         if case["addson"] is not None:
             kw["addson"] = case["addson"]
         head = write_dump_header(**kw)
         require(isinstance(head, str) and head.endswith("\n"), f"write_dump_header returned {head!r:.200}")
         coords = b[:, 0].astype(float) + (fr["f"] + fr["exc"]) * (b[:, 1].astype(float) - b[:, 0].astype(float))
-        text.append(head + io19.atom_lines(case["fmt"], fr["ids"], fr["types"], coords, fr["extras"]))
+        text.append(head + io19.atom_lines(case["fmt"], fr["ids"], fr["types"], coords, fr["extras"], lay=case.get("layout")))
         given.append(b)
     text = "".join(text)
     frames = parsed(text, "write_dump_header + atom lines")
@@ -305,9 +471,8 @@ def check_header_dump(case):
         if case["addson"] is not None:
             require(pf["columns"][2 + d:] == case["addson"].split(), f"{t}: ATOMS columns {pf['columns']} for addson={case['addson']!r}")
     # --- read back
-    fn = os.path.join(os.getcwd(), "hdr.dump")
-    with open(fn, "w") as f:
-        f.write(text)
+    fn = file_name(case.get("fname", "abs"), "hdr.dump")
+    write_text(fn, text)
     namb = 0
     exp = [io19.atomic_expected(pf, d) for pf in frames]
     for tag, get in (("read_lammps_wrapper", lambda: read_lammps_wrapper(fn, d)),
@@ -325,10 +490,15 @@ def check_header_dump(case):
             namb += cmp_positions(t, s.positions, e, atol)
     tags, shuffled = frame_tags(case)
     sixdec = all(np.array_equal(np.round(np.asarray(b, float), 6), np.asarray(b, float)) for b in given)
-    tags += ["addson-" + ("None" if case["addson"] is None else str(len(case["addson"].split()))),
+    tags += ["addson-" + ("None" if case["addson"] is None else str(min(len(case["addson"].split()), 4))),
              "bounds-" + case["container"], "bounds-exact-6dec" if sixdec else "bounds-rounded"]
     if any(np.abs(np.asarray(b)).max() > 100 for b in given):
         tags.append("bounds-wide")
+    if case.get("big"):
+        tags.append(f"size-boundary-{len(case['frames'][0]['ids'])}")
+    if case["addson"] is not None and len(case["addson"].split()) > 3:
+        tags.append("addson-4+")
+    tags.append("ints-numpy" if case["np_int"] else "ints-python")
     nontrivial = bool((not sixdec) or d == 2 or len(frames) >= 2)
     return {"nontrivial": nontrivial, "tags": tags, "extra": {"ambiguous_coords": namb}}
 
@@ -349,8 +519,12 @@ def data_case_st(draw):
     if draw(st.booleans()):
         lo = lo + draw(fl(-1.0, 1.0))
         L = L + draw(fl(0.0, 1.0))
-    return {"d": d, "lo": lo, "L": L, "N": draw(st.one_of(st.integers(1, 200), st.integers(1, 10 ** 7))),
-            "K": draw(st.integers(1, 20)), "container": draw(st.sampled_from(["ndarray", "list", "float32"])),
+    container = draw(st.sampled_from(["ndarray", "ndarray", "list", "float32", "tuple", "int64", "int-list"]))
+    if container in ("int64", "int-list"):
+        lo, L = np.round(lo), np.maximum(1.0, np.round(L))
+    return {"d": d, "lo": lo, "L": L,
+            "N": draw(st.one_of(st.integers(1, 200), st.integers(1, 10 ** 7), st.sampled_from([2**31 - 1, 2**31, 10**12]))),
+            "K": draw(st.one_of(st.integers(1, 20), st.sampled_from([100, 1000]))), "container": container,
             "np_int": draw(st.booleans())}
 
 
@@ -358,7 +532,7 @@ def check_data_header(case):
     d = case["d"]
     barg, b = make_bounds(case["lo"], case["L"], case["container"])
     N = np.int64(case["N"]) if case["np_int"] else case["N"]
-    head = write_data_header(nparticle=N, nparticle_type=case["K"], boxbounds=barg)
+    head = write_data_header(nparticle=N, nparticle_type=np.int64(case["K"]) if case["np_int"] else case["K"], boxbounds=barg)
     require(isinstance(head, str) and head.endswith("\n"), f"write_data_header returned {head!r:.200}")
     lines = head.split("\n")
     require(lines[0].strip() != "" and len(lines) > 2, f"data header has no title line: {head!r:.200}")
@@ -390,9 +564,14 @@ def check_data_header(case):
 @st.composite
 def centre_case_st(draw):
     K = draw(st.sampled_from([1, 2, 2, 3, 3, 4, 5, 6]))
-    case = draw(dump_case_st(kmax=K))
-    keys = draw(st.lists(st.integers(1, K + 1), min_size=1, max_size=max(1, K - 1) if draw(st.integers(0, 3)) else K + 1,
-                         unique=True))
+    # the atom types of a molecular dump need not be 1..K: the reader only looks labels up in the map
+    sparse = draw(st.integers(0, 3)) == 0
+    labels = sorted(draw(st.lists(st.sampled_from([1, 2, 3, 5, 7, 12, 40, 99, 100, 250, 999]), min_size=K, max_size=K,
+                                  unique=True))) if sparse else list(range(1, K + 1))
+    case = draw(dump_case_st(kmax=K, labels=labels if sparse else None))
+    absent = [v for v in (labels[-1] + 1, 4, 1000) if v not in labels][:1]
+    keys = draw(st.lists(st.sampled_from(labels + absent), min_size=1,
+                         max_size=max(1, K - 1) if draw(st.integers(0, 3)) else K + 1, unique=True))
     how = draw(st.sampled_from(["arbitrary", "arbitrary", "arbitrary", "shifted", "rank", "identity", "merged",
                                 "zero-based", "wide"]))
     if how == "zero-based":
@@ -413,21 +592,34 @@ def centre_case_st(draw):
         mol = {k: 1 + (k + draw(st.integers(0, 4))) % 5 for k in keys}  # offset 4 = unchanged label
     case["moltypes"] = mol
     case["K"] = K
+    case["values_how"] = how
+    case["sparse"] = sparse
+    # the same map as numpy integers (keys taken from np.unique(types), values from an integer array)
+    case["map_as"] = draw(st.sampled_from(["int", "int", "np.int64", "np.int32-values"]))
     return case
 
 
 def check_centertype(case):
+    case = materialise(case)
     d = case["d"]
-    text = io19.encode_dump(case)
+    text = case.get("_text") or io19.encode_dump(case)
     frames = parsed(text, "generated dump")
-    fn = os.path.join(os.getcwd(), "mol.dump")
-    with open(fn, "w") as f:
-        f.write(text)
+    fn = file_name(case.get("fname", "abs"), "mol.dump")
+    write_text(fn, text)
     mol = dict(case["moltypes"])
     exp = [io19.centres_expected(pf, d, mol) for pf in frames]
     namb = 0
-    for tag, get in (("read_lammps_centertype_wrapper", lambda: read_lammps_centertype_wrapper(fn, d, dict(mol))),
-                     ("DumpReader(LAMMPSCENTER)", lambda: _dump_reader(fn, d, DumpFileType.LAMMPSCENTER, moltypes=dict(mol)))):
+    how = case.get("map_as", "int")
+
+    def marg():
+        if how == "np.int64":
+            return {np.int64(k): np.int64(v) for k, v in mol.items()}
+        if how == "np.int32-values":
+            return {k: np.int32(v) for k, v in mol.items()}
+        return dict(mol)
+
+    for tag, get in (("read_lammps_centertype_wrapper", lambda: read_lammps_centertype_wrapper(fn, d, marg())),
+                     ("DumpReader(LAMMPSCENTER)", lambda: _dump_reader(fn, d, DumpFileType.LAMMPSCENTER, moltypes=marg()))):
         snaps = get()
         snaps_ok(tag, snaps, len(exp))
         for k, (s, e) in enumerate(zip(snaps.snapshots, exp)):
@@ -448,6 +640,14 @@ def check_centertype(case):
         tags.append("key-absent")
     if any(e["nparticle"] == 0 for e in exp) and nsel > 0:
         tags.append("one-frame-empty")
+    if any(e["nparticle"] == 1 for e in exp):
+        tags.append("one-centre-selected")
+    tags.append("labels-sparse" if case.get("sparse") else "labels-1..K")
+    if case.get("values_how"):
+        tags.append("values-" + case["values_how"])
+    if any(v <= 0 for v in mol.values()):
+        tags.append("value-zero-or-negative")
+    tags.append("map-" + how)
     nontrivial = bool(0 < nsel < ntot and relabel)
     return {"nontrivial": nontrivial, "tags": tags, "extra": {"ambiguous_coords": namb}}
 
@@ -457,29 +657,48 @@ def check_centertype(case):
 
 @st.composite
 def column_case_st(draw):
-    case = draw(dump_case_st(frames=(1, 4), tilted=True, maybe_fixed_n=True))
-    fr0 = case["frames"][0]
-    ncols = 2 + (3 if (case["d"] == 3 or fr0["zcol"]) else 2) + len(fr0["names"])
-    first_extra = ncols - len(fr0["names"]) + 1
-    pool = st.integers(1, ncols)
-    if fr0["names"]:
-        pool = st.one_of(st.integers(first_extra, ncols), st.integers(first_extra, ncols), pool)
-    case["columnsids"] = draw(st.lists(pool, min_size=1, max_size=4))
-    case["ncol0"] = draw(st.one_of(st.integers(0, ncols - 1), st.integers(min(first_extra - 1, ncols - 1), ncols - 1)))
-    case["ncols"] = ncols
-    case["ids_as"] = "list"  # the documented argument type (List[int])
+    case = draw(dump_case_st(frames=(1, 4), tilted=True, maybe_fixed_n=True, many_extras=True))
+    case.update(column_choice(draw, case))
     return case
 
 
+def column_choice(draw, case):
+    """Draws the column arguments for a dump case: 1-based `columnsids`, 0-based `ncol0`; only numeric columns are
+    requested (the non-numeric element column, when present, merely shifts the others)."""
+    fr0 = case["frames"][0]
+    nbase = 2 + (3 if (case["d"] == 3 or fr0["zcol"]) else 2)
+    elem = fr0.get("elem")
+    ntrail = len(fr0["names"]) + (1 if elem is not None else 0)
+    ncols = nbase + ntrail
+    elem_col = None if elem is None else (nbase + 1 if elem["first"] else ncols)
+    numeric = [c for c in range(1, ncols + 1) if c != elem_col]
+    extra = [c for c in numeric if c > nbase]
+    pool = st.sampled_from(numeric)
+    if extra:
+        pool = st.one_of(st.sampled_from(extra), st.sampled_from(extra), pool)
+    out = {}
+    out["columnsids"] = draw(st.lists(pool, min_size=1, max_size=draw(st.sampled_from([4, 4, 8]))))
+    out["ncol0"] = draw(st.one_of(st.sampled_from(numeric), st.sampled_from(extra or numeric))) - 1
+    out["ncols"] = ncols
+    out["nbase"] = nbase
+    # the documented argument type is List[int]; value-equal arguments the unchanged reader accepts with the same result:
+    # tuple, integer arrays (int64 / int32), a float64 array (what np.loadtxt returns), a list of numpy integers
+    out["ids_as"] = draw(st.sampled_from(["list", "list", "list", "tuple", "int64", "int32", "float64", "list-np-int"]))
+    out["ncol_as"] = draw(st.sampled_from(["int", "int", "np.int64"]))
+    return out
+
+
 def check_columns(case):
+    case = materialise(case)
     d = case["d"]
-    text = io19.encode_dump(case)
+    text = case.get("_text") or io19.encode_dump(case)
     frames = parsed(text, "generated dump")
-    fn = os.path.join(os.getcwd(), "vec.dump")
-    with open(fn, "w") as f:
-        f.write(text)
+    fn = file_name(case.get("fname", "abs"), "vec.dump")
+    write_text(fn, text)
     cols1 = [int(c) for c in case["columnsids"]]
-    arg = {"list": list(cols1), "tuple": tuple(cols1), "ndarray": np.array(cols1)}[case["ids_as"]]
+    arg = {"list": list(cols1), "tuple": tuple(cols1), "ndarray": np.array(cols1), "int64": np.array(cols1, dtype=np.int64),
+           "int32": np.array(cols1, dtype=np.int32), "float64": np.array(cols1, dtype=np.float64),
+           "list-np-int": [np.int64(c) for c in cols1]}[case["ids_as"]]
     exp = [io19.columns_expected(pf, cols1) for pf in frames]
     for tag, get in (("read_lammps_vector_wrapper", lambda: read_lammps_vector_wrapper(fn, d, arg)),
                      ("DumpReader(LAMMPSVECTOR)", lambda: _dump_reader(fn, d, DumpFileType.LAMMPSVECTOR, columnsids=arg))):
@@ -498,21 +717,293 @@ def check_columns(case):
     tags, shuffled = frame_tags(case)
     if case["fixed_n"]:
         c0 = int(case["ncol0"])
-        res = read_additions(fn, c0)
+        res = read_additions(fn, np.int64(c0) if case.get("ncol_as") == "np.int64" else c0)
         want = np.array([io19.columns_expected(pf, [c0 + 1])[0][:, 0] for pf in frames])
         close(f"read_additions(ncol={c0})", res, want, rtol=1e-12, atol=0.0)
         tags.append("read_additions")
-        tags.append("additions-extra-col" if c0 >= case["ncols"] - len(case["frames"][0]["names"]) else "additions-base-col")
+        tags.append("additions-extra-col" if c0 >= case.get("nbase", case["ncols"] - len(case["frames"][0]["names"])) else "additions-base-col")
+        if case.get("ncol_as") == "np.int64":
+            tags.append("additions-ncol-np-int64")
     tags.append(f"ncolumnsids{len(cols1)}")
     tags.append("ids-" + case["ids_as"])
     if any(pf["triclinic"] for pf in frames):
         tags.append("tilted-header")
     if case["d"] == 2 and case["frames"][0]["zcol"]:
         tags.append("2d-with-z-column")
-    first_extra = case["ncols"] - len(case["frames"][0]["names"]) + 1
+    first_extra = case.get("nbase", case["ncols"] - len(case["frames"][0]["names"])) + 1
     tags.append("extra-columns" if any(c >= first_extra for c in cols1) and case["frames"][0]["names"] else "base-columns-only")
+    if any(c >= 10 for c in cols1):
+        tags.append("column-id-two-digits")
+    if len(set(cols1)) < len(cols1):
+        tags.append("column-repeated")
+    if cols1 != sorted(cols1):
+        tags.append("columns-not-ascending")
     nontrivial = bool(shuffled and (len(frames) >= 2 or len(cols1) >= 2))
     return {"nontrivial": nontrivial, "tags": tags}
+
+
+# ----------------------------------------------------------------------------- (b, c) size classes and call sequences
+
+
+def synth_frames(spec):
+    """Frames of an orthogonal dump with many atoms / many frames: the per-atom arrays come from numpy's Generator under a
+    Hypothesis-drawn seed (thousands of values do not fit a Hypothesis buffer); everything else is in `spec`."""
+    rng = np.random.default_rng(spec["seed"])
+    d, style = spec["d"], spec["style"]
+    nextra = len(spec["names"])
+    out = []
+    for k, N in enumerate(spec["Ns"]):
+        if spec["order"] == "ordered":
+            ids = np.arange(1, N + 1)
+        elif spec["order"] == "reversed":
+            ids = np.arange(N, 0, -1)
+        else:
+            ids = rng.permutation(N) + 1
+        types = rng.integers(1, spec["kmax"] + 1, N).astype(np.int64)
+        f = rng.random((N, d))
+        exc = np.zeros((N, d))
+        if style == "x":
+            zone = rng.integers(-1, 2, (N, d)) * (rng.random((N, d)) < 0.3)
+            u = rng.uniform(0.001, 0.98, (N, d))
+            exc = np.where(zone < 0, -u - f, np.where(zone > 0, 1.0 + u - f, 0.0))
+        elif style == "xu":
+            exc = np.round(rng.uniform(-5.0, 5.0, (N, d)), 3)
+        L = np.round(rng.uniform(0.5, 50.0, d), 2) + 0.5
+        lo = np.round(rng.uniform(-50.0, 50.0, d), 2) * int(rng.integers(0, 2))
+        elem = None
+        if spec["with_elem"]:
+            elem = {"values": [ELEMENTS[int(i)] for i in rng.integers(0, len(ELEMENTS), N)], "first": spec["elem_first"]}
+        out.append({"ids": ids.astype(int), "types": types, "f": f, "exc": exc,
+                    "extras": np.where(rng.random((N, nextra)) < 0.2, np.round(rng.uniform(-50, 50, (N, nextra))),
+                                       rng.uniform(-100.0, 100.0, (N, nextra))),
+                    "timestep": spec["steps"][k], "lo": lo, "L": L, "origin": "arbitrary" if lo.any() else "zero",
+                    "tilt": None, "names": list(spec["names"]), "zcol": spec["zcol"], "flags": spec["flags"], "elem": elem})
+    return out
+
+
+def materialise(case):
+    if "frames" in case:
+        return case
+    out = dict(case)
+    out["frames"] = synth_frames(case["synth"])
+    return out
+
+
+@st.composite
+def reader_sizes_st(draw, blocks, frame_blocks, long_n=()):
+    """Every Hypothesis draw is made first; the size itself is `spread` over the hash of all of them."""
+    d = draw(st.sampled_from([2, 3]))
+    style = draw(st.sampled_from(["x", "xs", "xu"]))
+    kind = draw(st.sampled_from(["atoms", "atoms", "frames"] + (["long"] if long_n else [])))
+    nextra = draw(st.integers(0, 3))
+    kmax = draw(st.integers(1, 5))
+    t0 = draw(st.one_of(st.integers(0, 10**9), st.sampled_from(BIG_STEPS)))
+    dt = draw(st.sampled_from([0, 1, 1000]))
+    seed = draw(st.integers(0, 2**32 - 1))
+    spec = {"seed": seed, "d": d, "style": style, "kmax": kmax,
+            "order": draw(st.sampled_from(["random", "random", "ordered", "reversed"])),
+            "names": draw(st.lists(st.sampled_from(EXTRA_NAMES), min_size=nextra, max_size=nextra, unique=True)),
+            "zcol": draw(st.booleans()) if d == 2 else False, "flags": draw(st.sampled_from(FLAGS)),
+            "with_elem": draw(st.integers(0, 3)) == 0, "elem_first": draw(st.booleans())}
+    fmt = draw(st.sampled_from(FORMATS))
+    lay = draw(layout_st())
+    fname = draw(st.sampled_from(NAME_KINDS))
+    case = {"d": d, "style": style, "fmt": fmt, "layout": lay, "fname": fname, "K": kmax, "sparse": False}
+    head = {"d": d, "frames": [{"names": spec["names"], "zcol": spec["zcol"],
+                                "elem": {"first": spec["elem_first"]} if spec["with_elem"] else None}]}
+    case.update(column_choice(draw, head))
+    keys = draw(st.lists(st.integers(1, kmax + 1), min_size=1, max_size=kmax + 1, unique=True))
+    case["moltypes"] = {k: draw(st.sampled_from([0, 1, 2, 3, 7, k])) for k in keys}
+    case["map_as"] = draw(st.sampled_from(["int", "int", "np.int64"]))
+    T = draw(st.sampled_from([1, 1, 2, 3]))
+    vary = draw(st.integers(0, 2)) == 0
+    others = [draw(st.sampled_from(["one", "minus", "plus"])) for _ in range(2)]
+    n0 = draw(st.sampled_from([1, 1, 2, 3, 4]))
+    const = draw(st.integers(0, 2)) > 0          # equal N in two cases out of three (read_additions needs it)
+    tlong = draw(st.integers(1, 3))
+    ent = (sorted(spec.items()), kind, t0, dt, sorted((k, repr(v)) for k, v in case.items()), T, vary, others, n0, const, tlong)
+    if kind == "atoms":
+        N = spread(boundary_sizes(blocks), ent)
+        Ns = [N] * T
+        if T > 1 and vary:
+            Ns = [N] + [{"one": 1, "minus": N - 1, "plus": N + 1}[o] for o in others[: T - 1]]
+        tag = f"size-boundary-{N}"
+    elif kind == "frames":
+        T = spread(boundary_sizes(frame_blocks), ent)
+        Ns = [n0] * T if const else [int(v) for v in np.random.default_rng(seed ^ 0x5A5A5A5A).integers(0, 5, T)]
+        tag = f"frames-boundary-{T}"
+    else:
+        N = spread(list(long_n), ent)
+        Ns = [N] * tlong
+        tag = f"long-N{N}"
+    spec["Ns"] = Ns
+    spec["steps"] = [t0 + k * dt for k in range(len(Ns))]
+    case.update(synth=spec, fixed_n=len(set(Ns)) == 1, size_tag=tag)
+    return case
+
+
+def check_reader_sizes(case):
+    case = materialise(case)
+    case["_text"] = io19.encode_dump(case)
+    a = check_centertype(case)
+    b = check_columns(case)
+    tags = sorted(set(a["tags"]) | set(b["tags"])) + [case["size_tag"]]
+    kib = len(case["_text"]) / 1024.0
+    for lim in (1024, 64, 8):
+        if kib > lim:
+            tags.append(f"long-file-{lim}KiB")
+            break
+    return {"nontrivial": True, "tags": tags, "extra": a.get("extra")}
+
+
+def describe_sizes(case):
+    return {"d": case["d"], "style": case["style"], "size": case["size_tag"], "Ns": case["synth"]["Ns"][:6],
+            "moltypes": case["moltypes"], "columnsids": case["columnsids"], "ncol0": case["ncol0"]}
+
+
+@st.composite
+def aux_sequence_st(draw):
+    """Several auxiliary-reader calls on two small files under re-used file names; every result is kept."""
+    share = draw(st.booleans())
+    files = []
+    for k in range(2):
+        fc = draw(dump_case_st(frames=(1, 3), kmax=4, maybe_fixed_n=True))
+        fc["fname"] = "abs"
+        files.append(fc)
+    if share:
+        # equal N and frame count in both files: a buffer keyed on the shape would be shared
+        files[1]["d"] = files[0]["d"]
+        n = len(files[0]["frames"][0]["ids"])
+        T = len(files[0]["frames"])
+        proto = draw(dump_case_st(frames=(T, T), kmax=4))
+        fr = []
+        for j in range(T):
+            a = draw(atoms_st(files[0]["d"], proto["style"], len(files[0]["frames"][0]["names"]), N=n, kmax=4))
+            lo, L, okind = draw(box_st(files[0]["d"]))
+            a.update(timestep=proto["frames"][j]["timestep"], lo=lo, L=L, origin=okind, tilt=None,
+                     names=files[0]["frames"][0]["names"], zcol=files[0]["frames"][0]["zcol"], flags="pp pp pp", elem=None)
+            fr.append(a)
+        for f0 in files[0]["frames"]:
+            if len(f0["ids"]) != n:
+                share = False
+        files[1] = {"d": files[0]["d"], "style": proto["style"], "fmt": proto["fmt"], "frames": fr,
+                    "fixed_n": True, "layout": proto["layout"], "fname": "abs"}
+    plan = []
+    for _ in range(draw(st.integers(3, 7))):
+        k = draw(st.integers(0, 1))
+        fc = files[k]
+        kinds = ["centre", "centre", "vector", "vector"]
+        if fc["fixed_n"] or len({len(f["ids"]) for f in fc["frames"]}) == 1:
+            kinds.append("additions")
+        kind = draw(st.sampled_from(kinds))
+        stp = {"file": k, "slot": draw(st.integers(0, 1)), "kind": kind, "via": draw(st.sampled_from(["wrapper", "reader"]))}
+        if kind == "centre":
+            keys = draw(st.lists(st.integers(1, 5), min_size=1, max_size=4, unique=True))
+            stp["mol"] = {key: draw(st.integers(0, 5)) for key in keys}
+        else:
+            cc = column_choice(draw, fc)
+            stp["cols"] = cc["columnsids"]
+            stp["ncol0"] = cc["ncol0"]
+        plan.append(stp)
+    return {"files": files, "plan": plan, "name_kind": draw(st.sampled_from(["abs", "bare"])), "share": share}
+
+
+def _cmp_centre(tag, snaps, exp):
+    snaps_ok(tag, snaps, len(exp))
+    for k, (s, e) in enumerate(zip(snaps.snapshots, exp)):
+        t = f"{tag} frame {k}"
+        atol = cmp_frame(t, s, e)
+        cmp_positions(t, s.positions, e, atol)
+
+
+def _cmp_vector(tag, snaps, exp, frames):
+    snaps_ok(tag, snaps, len(exp))
+    for k, (s, (vals, typ), pf) in enumerate(zip(snaps.snapshots, exp, frames)):
+        t = f"{tag} frame {k}"
+        require(s is not None, f"{t}: snapshot is None")
+        require(int(s.timestep) == pf["timestep"], f"{t}: timestep {s.timestep} != {pf['timestep']}")
+        require(int(s.nparticle) == pf["natoms"], f"{t}: nparticle {s.nparticle} != {pf['natoms']}")
+        equal(f"{t}: particle_type", s.particle_type, typ)
+        close(f"{t}: columns (returned as positions)", s.positions, vals, rtol=1e-12, atol=0.0)
+
+
+def _bits(x):
+    """A comparable deep copy of a reader result (Snapshots or ndarray)."""
+    if isinstance(x, np.ndarray):
+        return x.copy()
+    out = []
+    for s_ in x.snapshots:
+        out.append((int(s_.timestep), int(s_.nparticle), np.array(s_.particle_type, copy=True), np.array(s_.positions, copy=True),
+                    np.array(s_.boxlength, copy=True), np.array(s_.boxbounds, copy=True), np.array(s_.hmatrix, copy=True)))
+    return (x.nsnapshots, out)
+
+
+def _bits_equal(a, b):
+    if isinstance(a, np.ndarray):
+        return isinstance(b, np.ndarray) and np.array_equal(a, b, equal_nan=True)
+    if a[0] != b[0] or len(a[1]) != len(b[1]):
+        return False
+    for fa, fb in zip(a[1], b[1]):
+        if fa[0] != fb[0] or fa[1] != fb[1]:
+            return False
+        if not all(x.shape == y.shape and np.array_equal(x, y) for x, y in zip(fa[2:], fb[2:])):
+            return False
+    return True
+
+
+def check_aux_sequence(case):
+    texts = [io19.encode_dump(fc) for fc in case["files"]]
+    parsed_ = [parsed(t, "generated dump") for t in texts]
+    slots = [file_name(case["name_kind"], f"slot{k}.dump") for k in (0, 1)]
+    in_slot = {}
+    held = []
+    rewrites = 0
+    kinds = set()
+    for n, stp in enumerate(case["plan"]):
+        k, slot = stp["file"], stp["slot"]
+        fc, frames, fn = case["files"][k], parsed_[k], slots[slot]
+        d = fc["d"]
+        if in_slot.get(slot) != k:
+            rewrites += slot in in_slot
+            write_text(fn, texts[k])
+            in_slot[slot] = k
+        label = f"call {n}: {stp['kind']} via {stp['via']} on file {k} in slot {slot}"
+        kinds.add(stp["kind"])
+        if stp["kind"] == "centre":
+            mol = dict(stp["mol"])
+            exp = [io19.centres_expected(pf, d, mol) for pf in frames]
+            res = read_lammps_centertype_wrapper(fn, d, dict(mol)) if stp["via"] == "wrapper" else \
+                _dump_reader(fn, d, DumpFileType.LAMMPSCENTER, moltypes=dict(mol))
+            cmp = (lambda lab, r, exp=exp: _cmp_centre(lab + f" (moltypes={mol})", r, exp))
+        elif stp["kind"] == "vector":
+            cols1 = [int(c) for c in stp["cols"]]
+            exp = [io19.columns_expected(pf, cols1) for pf in frames]
+            res = read_lammps_vector_wrapper(fn, d, list(cols1)) if stp["via"] == "wrapper" else \
+                _dump_reader(fn, d, DumpFileType.LAMMPSVECTOR, columnsids=list(cols1))
+            cmp = (lambda lab, r, exp=exp, frames=frames: _cmp_vector(lab + f" (columnsids={cols1})", r, exp, frames))
+        else:
+            c0 = int(stp["ncol0"])
+            want = np.array([io19.columns_expected(pf, [c0 + 1])[0][:, 0] for pf in frames])
+            res = read_additions(fn, c0)
+            cmp = (lambda lab, r, want=want: close(lab + f" (ncol={c0})", r, want, rtol=1e-12, atol=0.0))
+        cmp(label, res)
+        held.append((label, res, _bits(res), cmp))
+    for label, res, cp, cmp in held:
+        require(_bits_equal(_bits(res), cp), f"{label}: a result handed out earlier was modified by a later call")
+        cmp(label + " re-examined after all calls", res)
+    tags = [f"calls{len(case['plan'])}", "name-" + case["name_kind"], "shapes-shared" if case["share"] else "shapes-differ",
+            "slot-rewritten" if rewrites else "slot-written-once"] + ["kind-" + k for k in sorted(kinds)]
+    rep = {}
+    for stp in case["plan"]:
+        rep.setdefault((stp["kind"], stp["file"]), set()).add(repr(stp.get("mol") or stp.get("cols") or stp.get("ncol0")))
+    if any(len(v) > 1 for v in rep.values()):
+        tags.append("same-reader-same-file-different-arguments")
+    return {"nontrivial": bool(rewrites or len(rep) > 1), "tags": tags}
+
+
+def describe_aux_sequence(case):
+    return {"plan": case["plan"], "files": [{"d": fc["d"], "style": fc["style"], "text": io19.encode_dump(fc)[:300]}
+                                            for fc in case["files"]]}
 
 
 # ----------------------------------------------------------------------------- (d) HOOMD frames
@@ -526,24 +1017,56 @@ def gsd_case_st(draw, force_dcd=False):
     K = draw(st.integers(1, 4))
     nfix = draw(st.integers(1, 8))
     f32 = st.floats(-50.0, 50.0, width=32, allow_nan=False)
-    steps = steps_st(draw, T)
+    # size classes (seeded arrays): frames / particles around block sizes
+    size = "small" if force_dcd else draw(st.sampled_from(["small"] * 8 + ["frames", "atoms"]))
+    size_tag = None
+    rng = None
+    step_type = draw(st.sampled_from(["int", "uint64"]))
+    name_kind = draw(st.sampled_from(["bare", "dot", "sub", "abs"]))
+    stem = draw(st.sampled_from(["traj", "run.1", "a", "dump_T0.45"]))
+    tdtype = draw(st.sampled_from([np.uint32, np.uint32, np.int32, np.int64]))
+    pdtype = draw(st.sampled_from([np.float32, np.float32, np.float64]))
+    tbig0 = draw(st.integers(0, 10**9))
+    if size != "small":
+        # seeded arrays; the size is spread over the hash of every draw of the case
+        gseed = draw(st.integers(0, 2**32 - 1))
+        rng = np.random.default_rng(gseed)
+        ent = (gseed, d, T, K, nfix, with_dcd, step_type, name_kind, stem, np.dtype(tdtype).name, np.dtype(pdtype).name, tbig0)
+        if size == "frames":
+            T = spread(boundary_sizes([32, 64]), ent)
+            size_tag = f"frames-boundary-{T}"
+        else:
+            nfix = spread(boundary_sizes(BLOCKS_QUICK), ent)
+            size_tag = f"size-boundary-{nfix}"
+    steps = steps_st(draw, T) if rng is None else [tbig0 + 100 * k for k in range(T)]
     fr = []
     for k in range(T):
-        N = nfix if (with_dcd or draw(st.booleans())) else draw(st.integers(1, 8))
-        box = np.array([draw(st.floats(1.0, 60.0, width=32)) for _ in range(3)] + [0.0, 0.0, 0.0], dtype=np.float32)
-        if d == 2:
-            box[2] = draw(st.sampled_from([0.0, 1.0]))
-        pos = draw(hnp.arrays(np.float32, (N, 3), elements=f32))
-        if d == 2 and draw(st.booleans()):
-            pos[:, 2] = 0.0
-        typeid = np.array(draw(st.lists(st.integers(0, K - 1), min_size=N, max_size=N)), dtype=np.uint32)
-        fr.append({"step": steps[k], "box": box, "position": pos, "typeid": typeid})
+        if rng is not None:
+            N = nfix
+            box = np.array(list(rng.uniform(1.0, 60.0, 3)) + [0.0, 0.0, 0.0], dtype=np.float32)
+            if d == 2:
+                box[2] = float(rng.integers(0, 2))
+            pos = rng.uniform(-50.0, 50.0, (N, 3)).astype(np.float32)
+            if d == 2 and rng.integers(0, 2):
+                pos[:, 2] = 0.0
+            typeid = rng.integers(0, K, N).astype(tdtype)
+        else:
+            N = nfix if (with_dcd or draw(st.booleans())) else draw(st.integers(1, 8))
+            box = np.array([draw(st.floats(1.0, 60.0, width=32)) for _ in range(3)] + [0.0, 0.0, 0.0], dtype=np.float32)
+            if d == 2:
+                box[2] = draw(st.sampled_from([0.0, 1.0]))
+            pos = draw(hnp.arrays(np.float32, (N, 3), elements=f32))
+            if d == 2 and draw(st.booleans()):
+                pos[:, 2] = 0.0
+            typeid = np.array(draw(st.lists(st.integers(0, K - 1), min_size=N, max_size=N)), dtype=tdtype)
+        fr.append({"step": steps[k], "box": box, "position": pos.astype(pdtype), "typeid": typeid})
     dcd = None
     if with_dcd:
-        dcd = draw(hnp.arrays(np.float32, (T, nfix, 3), elements=st.floats(-500.0, 500.0, width=32, allow_nan=False)))
-    return {"d": d, "frames": fr, "dcd": dcd, "step_type": draw(st.sampled_from(["int", "uint64"])),
-            "name_kind": draw(st.sampled_from(["bare", "dot", "sub", "abs"])),
-            "stem": draw(st.sampled_from(["traj", "run.1", "a", "dump_T0.45"]))}
+        if rng is not None:
+            dcd = rng.uniform(-500.0, 500.0, (T, nfix, 3)).astype(np.float32)
+        else:
+            dcd = draw(hnp.arrays(np.float32, (T, nfix, 3), elements=st.floats(-500.0, 500.0, width=32, allow_nan=False)))
+    return {"d": d, "frames": fr, "dcd": dcd, "step_type": step_type, "size_tag": size_tag, "name_kind": name_kind, "stem": stem}
 
 
 class _Trajectory:
@@ -703,7 +1226,15 @@ def check_gsd(case):
     d = case["d"]
     gpos = [f["position"] for f in case["frames"]]
     traj = make_traj(case)
-    cmp_gsd("read_gsd", read_gsd(traj, d), case, gpos)
+    held = []            # every result is kept and examined again after the last call
+
+    def keep(tag, snaps, positions):
+        cmp_gsd(tag, snaps, case, positions)
+        held.append((tag, snaps, positions))
+        return snaps
+
+    keep("read_gsd", read_gsd(traj, d), gpos)
+    keep("read_gsd (second evaluation of the same trajectory object)", read_gsd(traj, d), gpos)
     for fo, f in zip(traj._frames, case["frames"]):  # inputs untouched
         require(np.array_equal(fo.particles.typeid, f["typeid"]) and np.array_equal(fo.particles.position, f["position"]),
                 "read_gsd modified the frame objects it was given")
@@ -714,8 +1245,8 @@ def check_gsd(case):
         with _FakeModules(make_traj(case), None) as fm:
             snaps = get()
         require(len(fm.opened) == 1 and _same_file(fm.opened[0][0], gsd_name), f"{tag}({gsd_name!r}) opened {fm.opened}")
-        cmp_gsd(tag, snaps, case, gpos)
-    tags = [f"d{d}", f"frames{len(gpos)}", "dcd" if case["dcd"] is not None else "gsd-only",
+        keep(tag, snaps, gpos)
+    tags = [f"d{d}", f"frames{len(gpos)}" if len(gpos) <= 4 else "frames5+", "dcd" if case["dcd"] is not None else "gsd-only",
             "step-" + case["step_type"], "name-" + kind]
     if len({len(f["typeid"]) for f in case["frames"]}) > 1:
         tags.append("N-varies")
@@ -724,7 +1255,8 @@ def check_gsd(case):
     if case["dcd"] is not None:
         xyz = case["dcd"]
         dcd = _DCD(xyz)
-        cmp_gsd("read_gsd_dcd", read_gsd_dcd(make_traj(case), dcd, d), case, xyz)
+        keep("read_gsd_dcd", read_gsd_dcd(make_traj(case), dcd, d), xyz)
+        keep("read_gsd_dcd (same trajectory object as read_gsd before)", read_gsd_dcd(traj, _DCD(xyz), d), xyz)
         for tag, get in (("read_gsd_dcd_wrapper", lambda: read_gsd_dcd_wrapper(gsd_name, d)),
                          ("DumpReader(GSD_DCD)", lambda: _dump_reader(gsd_name, d, DumpFileType.GSD_DCD))):
             with _FakeModules(make_traj(case), _DCD(xyz)) as fm:
@@ -736,7 +1268,13 @@ def check_gsd(case):
             require(_same_file(got, dcd_written),
                     f"{tag}({gsd_name!r}) opened the DCD file {got!r}; the DCD file accompanying the GSD file is "
                     f"{os.path.relpath(dcd_written)!r} (same folder, same name, extension dcd)")
-            cmp_gsd(tag, snaps, case, xyz)
+            keep(tag, snaps, xyz)
+    for tag, snaps, positions in held:
+        cmp_gsd(tag + " re-examined after all calls", snaps, case, positions)
+    if case.get("size_tag"):
+        tags.append(case["size_tag"])
+    tags.append("typeid-" + np.dtype(case["frames"][0]["typeid"].dtype).name)
+    tags.append("position-" + np.dtype(case["frames"][0]["position"].dtype).name)
     nontrivial = bool(len(gpos) >= 2 or d == 2 or case["dcd"] is not None)
     return {"nontrivial": nontrivial, "tags": tags}
 
@@ -747,33 +1285,59 @@ LOG_FORMATS = ["%.8g", "%g", "%.6f", "%.10e", "%.15g"]
 
 
 @st.composite
-def section_st(draw, rows_min, rows_max, step0):
-    ncol = draw(st.integers(1, 6))
+def section_st(draw, rows_min, rows_max, step0, nrows=None):
+    ncol = draw(st.sampled_from([1, 2, 3, 4, 5, 6, 1, 2, 3, 4, 5, 6, 12, 20]))
     cols = ["Step"] + draw(st.lists(st.sampled_from(io19.THERMO_COLS), min_size=ncol, max_size=ncol, unique=True))
-    nrows = draw(st.integers(rows_min, rows_max))
     dt = draw(st.sampled_from([1, 10, 100, 1000, 5000]))
+    if nrows is None:
+        nrows = draw(st.integers(rows_min, rows_max))
+        vals = draw(hnp.arrays(np.float64, (nrows, ncol), elements=st.one_of(
+            fl(-1e4, 1e4), st.integers(-1000, 1000).map(float), st.sampled_from([0.0, 1e-12, -3.5e9]))))
+    else:
+        # a long section (hundreds of rows): values from numpy's Generator under a drawn seed
+        rng = np.random.default_rng(draw(st.integers(0, 2**32 - 1)))
+        vals = np.where(rng.random((nrows, ncol)) < 0.2, np.round(rng.uniform(-1000, 1000, (nrows, ncol))),
+                        rng.uniform(-1e4, 1e4, (nrows, ncol)))
     steps = [step0 + k * dt for k in range(nrows)]
-    vals = draw(hnp.arrays(np.float64, (nrows, ncol), elements=st.one_of(
-        fl(-1e4, 1e4), st.integers(-1000, 1000).map(float), st.sampled_from([0.0, 1e-12, -3.5e9]))))
     return {"columns": cols, "steps": steps, "values": vals, "fmt": draw(st.sampled_from(LOG_FORMATS)),
             "width": draw(st.sampled_from([0, 0, 14, 22])), "loop": draw(st.sampled_from(io19.LOOP_LINES)),
             "post": draw(st.lists(st.sampled_from(io19.POST_LINES), min_size=0, max_size=5))}
 
 
+def _rng_section(rng, step, nrows=None):
+    """A thermo section built by numpy's Generator (column set, row count 1-3 unless given, values, text after it)."""
+    ncol = int(rng.integers(1, 7))
+    cols = ["Step"] + [io19.THERMO_COLS[int(i)] for i in rng.permutation(len(io19.THERMO_COLS))[:ncol]]
+    if nrows is None:
+        nrows = int(rng.integers(1, 4))
+    dt = int(rng.choice([1, 10, 100, 1000]))
+    return {"columns": cols, "steps": [step + j * dt for j in range(nrows)],
+            "values": np.where(rng.random((nrows, ncol)) < 0.3, np.round(rng.uniform(-1000, 1000, (nrows, ncol))),
+                               rng.uniform(-1e4, 1e4, (nrows, ncol))),
+            "fmt": LOG_FORMATS[int(rng.integers(0, len(LOG_FORMATS)))], "width": int(rng.choice([0, 0, 14, 22])),
+            "loop": io19.LOOP_LINES[int(rng.integers(0, len(io19.LOOP_LINES)))],
+            "post": [io19.POST_LINES[int(i)] for i in rng.integers(0, len(io19.POST_LINES), int(rng.integers(0, 4)))]}
+
+
 @st.composite
-def log_case_st(draw, tail_rows=(2, 8), force_tail=False, quotes=False):
-    nsec = draw(st.integers(1 if quotes else 0, 4))
+def log_case_st(draw, tail_rows=(2, 8), force_tail=False, quotes=False, sizes=None):
+    """sizes: None | list of block sizes -> one class of the size axis per case: a section with a row count around a
+    block size, or a number of sections around a block size (1-3 rows each).  The small log is drawn first; the size is
+    `spread` over the hash of all draws and the long section / the many sections are then added by numpy's Generator."""
+    nsec = draw(st.integers(1 if quotes else 0, 4 if sizes is None else 2))
     pre = draw(st.lists(st.sampled_from(io19.PRE_LINES), min_size=1, max_size=8))
+    lay = {"eol": draw(st.sampled_from(["\n", "\n", "\r\n"])), "trail": draw(st.sampled_from([False, False, True]))}
+    fname = draw(st.sampled_from(NAME_KINDS))
     secs = []
-    step = draw(st.sampled_from([0, 0, 1000, 123456789]))
-    for _ in range(nsec):
+    step = draw(st.sampled_from([0, 0, 1000, 123456789, 2**31 - 5, 2**40, 2**53 + 1]))
+    for k in range(nsec):
         s = draw(section_st(1, 8, step))
         secs.append(s)
         step = (s["steps"][-1] if s["steps"] else step) + draw(st.sampled_from([0, 1, 500]))
     tail = None
     last = None
     if force_tail or draw(st.integers(0, 2)) == 0:
-        t = draw(section_st(tail_rows[0], tail_rows[1], step))
+        t = draw(section_st(tail_rows[0], tail_rows[1], step + 10**6))
         t["cut"] = draw(st.sampled_from([0, 0, 0, 1, 3, 40])) if len(t["steps"]) else 0
         t["newline"] = draw(st.booleans())
         tail = t
@@ -788,17 +1352,44 @@ def log_case_st(draw, tail_rows=(2, 8), force_tail=False, quotes=False):
         target[at:at] = q
         if draw(st.booleans()):
             secs[-1]["post"] = secs[-1]["post"] + [draw(st.sampled_from(io19.QUOTE_LINES))]
-    return {"pre": pre, "sections": secs, "tail": tail, "last": last}
+    size_tag = None
+    if sizes is not None:
+        seed = draw(st.integers(0, 2**32 - 1))
+        rows_kind = draw(st.booleans())
+        which = draw(st.integers(0, 3))
+        with np.printoptions(threshold=100000):
+            ent = repr((seed, rows_kind, which, pre, secs, tail, last, sorted(lay.items()), fname))
+        rng = np.random.default_rng(seed)
+        if rows_kind:
+            n = spread(boundary_sizes(sizes), ent)
+            big = _rng_section(rng, step, nrows=n)
+            if secs and which:
+                secs[which % len(secs)] = big
+            else:
+                secs.append(big)
+            size_tag = f"rows-boundary-{n}"
+        else:
+            k = spread(boundary_sizes([b for b in sizes if b <= (64 if len(sizes) <= 5 else 256)]), ent)
+            while len(secs) < k:
+                secs.insert(int(rng.integers(0, len(secs) + 1)), _rng_section(rng, int(rng.integers(0, 10**7))))
+            size_tag = f"sections-boundary-{k}"
+    return {"pre": pre, "sections": secs, "tail": tail, "last": last, "layout": lay, "size_tag": size_tag, "fname": fname}
 
 
 def cmp_section(t, df, cols, rows):
-    require(hasattr(df, "columns") and hasattr(df, "shape"), f"{t}: not a DataFrame: {df!r:.200}")
+    require(hasattr(df, "columns") and hasattr(df, "shape"), lambda: f"{t}: not a DataFrame: {df!r:.200}")
     columns(t, df, cols)
     require(df.shape[0] == len(rows), f"{t}: {df.shape[0]} rows returned, the section has {len(rows)}")
     if rows:
         want = io19.tokens_to_float(rows, len(cols))
         for j, c in enumerate(cols):
             got = col(t, df, c)
+            if j == 0 and np.asarray(got).dtype.kind in "iu":
+                # step numbers returned as integers are compared as integers (2^53 + 1 is not a double)
+                gi, wi = [int(v) for v in np.asarray(got).tolist()], [int(r[0]) for r in rows]
+                require(gi == wi, f"{t}: column {c!r} (integers): got {gi[:6]}..., want {wi[:6]}... "
+                                  f"({sum(a != b for a, b in zip(gi, wi))}/{len(wi)} entries differ)")
+                continue
             try:
                 got = np.asarray(got, dtype=float)
             except (TypeError, ValueError):
@@ -808,9 +1399,8 @@ def cmp_section(t, df, cols, rows):
 
 def check_log(case):
     text, complete, tail_rows = io19.encode_log(case)
-    fn = os.path.join(os.getcwd(), "log.lammps")
-    with open(fn, "w") as f:
-        f.write(text)
+    fn = file_name(case.get("fname", "abs"), "log.lammps")
+    write_text(fn, text)
     res = read_lammpslog(fn)
     require(isinstance(res, (list, tuple)), f"read_lammpslog returned {type(res).__name__}")
     k = len(complete)
@@ -819,7 +1409,7 @@ def check_log(case):
             + (" and an interrupted one" if tail_rows is not None else ""))
     for i, (cols, rows) in enumerate(complete):
         cmp_section(f"section {i}", res[i], cols, rows)
-    tags = [f"sections{k}"]
+    tags = [f"sections{k}" if k <= 4 else "sections5+"]
     tail_got = 0
     if tail_rows is not None:
         tags.append(f"tail-rows{min(len(case['tail']['steps']), 4)}" + ("+" if len(case["tail"]["steps"]) > 4 else ""))
@@ -851,8 +1441,77 @@ def check_log(case):
         tags.append("odd-quotes-between-sections")
     if case["sections"] and odd(case["sections"][-1]["post"]):
         tags.append("odd-quotes-after-last-section")
+    lay = case.get("layout") or {}
+    if lay.get("eol") == "\r\n":
+        tags.append("eol-crlf")
+    if lay.get("trail"):
+        tags.append("trail-blank")
+    if case.get("size_tag"):
+        tags.append(case["size_tag"])
+    if "fname" in case:
+        tags.append("name-" + case["fname"])
+    if any(len(c) > 10 for c, _ in complete):
+        tags.append("columns-12+")
+    smax = max([int(r[0]) for _, rows in complete for r in rows] or [0])
+    tags.append("step-ge-2^53" if smax >= 2**53 else "step-ge-2^31" if smax >= 2**31 else "step-small")
     nontrivial = bool((k >= 2 and len(colsets) > 1) or tail_rows is not None)
     return {"nontrivial": nontrivial, "tags": tags, "extra": {"tail_rows_returned": tail_got}}
+
+
+@st.composite
+def log_sequence_st(draw):
+    logs = [draw(log_case_st()) for _ in range(draw(st.integers(2, 3)))]
+    for lg in logs:
+        lg["fname"] = "abs"
+    plan = [draw(st.integers(0, len(logs) - 1)) for _ in range(draw(st.integers(3, 6)))]
+    return {"logs": logs, "plan": plan, "name_kind": draw(st.sampled_from(["abs", "bare"]))}
+
+
+def _cmp_log(label, res, complete, tail_rows, tail_cols):
+    require(isinstance(res, (list, tuple)), f"{label}: read_lammpslog returned {type(res).__name__}")
+    k = len(complete)
+    require(len(res) in ((k, k + 1) if tail_rows is not None else (k,)),
+            f"{label}: {len(res)} sections returned, the log holds {k} complete sections")
+    for i, (cols, rows) in enumerate(complete):
+        cmp_section(f"{label} section {i}", res[i], cols, rows)
+    if len(res) == k + 1:
+        df = res[k]
+        require(hasattr(df, "shape") and df.shape[0] <= len(tail_rows), f"{label}: interrupted section has too many rows")
+        cmp_section(f"{label} interrupted section (row prefix)", df, tail_cols, tail_rows[: df.shape[0]])
+
+
+def check_log_sequence(case):
+    """The same file name holds one log after the other (a running simulation's log is re-read; a script loops over
+    runs writing to log.lammps); all DataFrames handed out are kept and examined again at the end."""
+    enc = [io19.encode_log(lg) for lg in case["logs"]]
+    fn = file_name(case["name_kind"], "log.lammps")
+    held = []
+    prev = None
+    rewrites = 0
+    for n, k in enumerate(case["plan"]):
+        text, complete, tail_rows = enc[k]
+        if prev != k:
+            rewrites += prev is not None
+            write_text(fn, text)
+            prev = k
+        res = read_lammpslog(fn)
+        label = f"read {n} (log {k})"
+        tail_cols = case["logs"][k]["tail"]["columns"] if case["logs"][k]["tail"] is not None else None
+        _cmp_log(label, res, complete, tail_rows, tail_cols)
+        held.append((label, res, [df.copy(deep=True) for df in res], complete, tail_rows, tail_cols))
+    for label, res, cps, complete, tail_rows, tail_cols in held:
+        require(len(res) == len(cps) and all(a.equals(b) and list(a.columns) == list(b.columns) for a, b in zip(res, cps)),
+                f"{label}: a DataFrame handed out earlier was modified by a later read")
+        _cmp_log(label + " re-examined after all reads", res, complete, tail_rows, tail_cols)
+    tags = [f"reads{len(case['plan'])}", f"logs{len(case['logs'])}", "name-" + case["name_kind"],
+            "file-rewritten" if rewrites else "file-written-once"]
+    if len(case["plan"]) > len(set(case["plan"])):
+        tags.append("same-log-read-again")
+    return {"nontrivial": bool(rewrites), "tags": tags}
+
+
+def describe_log_sequence(case):
+    return {"plan": case["plan"], "logs": [io19.encode_log(lg)[0][:400] for lg in case["logs"]]}
 
 
 # ----------------------------------------------------------------------------- descriptions
@@ -905,6 +1564,20 @@ FACETS = [
           rule="dumps with 0..3 extra columns (+ optional z column in 2D, tilted headers) x 1..4 frames x columnsids lists "
                "(1-based, any order, repeats) ; read_additions (0-based) on the files with equal N; non-trivial = lines "
                "shuffled and (>= 2 frames or >= 2 columns)"),
+    Facet("reader_sizes", reader_sizes_st(BLOCKS_QUICK, [32, 64]), check_reader_sizes, quick=120, thorough=0,
+          describe=describe_sizes, shards_quick=3, quick_budget_s=240.0,
+          rule="size-boundary classes for the molecule-centre reader, the column reader and read_additions on one seeded "
+               "orthogonal dump: atoms per frame B-1, B, B+1, 2B-1, 2B+1, B+B//3 for B in {32, 64, 100, 128, 256}, frames per "
+               "file around B in {32, 64}; all layouts; non-trivial = always"),
+    Facet("reader_sizes_large", reader_sizes_st(BLOCKS_ALL, BLOCKS_ALL, long_n=(5000, 20000)), check_reader_sizes, quick=0,
+          thorough=1600, describe=describe_sizes,
+          rule="thorough tier only: as reader_sizes with B up to 1024 (N, frames up to 2049) and long files (N = 5000, 20000)"),
+    Facet("aux_sequence", aux_sequence_st(), check_aux_sequence, quick=200, thorough=12000, describe=describe_aux_sequence,
+          shards_quick=2, quick_budget_s=240.0,
+          rule="3-7 calls of the molecule-centre reader / column reader / read_additions with different arguments on two "
+               "small files under two re-used file names; each result compared at return, copied, and ALL results examined "
+               "again (oracle + bit-for-bit) after the last call; non-trivial = a name re-used for other contents or "
+               ">= 2 different (reader, file) pairs"),
     Facet("gsd", gsd_case_st(), check_gsd, quick=400, thorough=30000, describe=describe_gsd, shards_quick=2,
           rule="duck-typed HOOMD frame sequences 1..4 frames x {2D,3D} x typeid 0..K-1 x optional DCD array; read_gsd, "
                "read_gsd_dcd, and read_gsd_wrapper / read_gsd_dcd_wrapper / DumpReader(GSD / GSD_DCD) through stand-in "
@@ -922,6 +1595,15 @@ FACETS = [
           describe=describe_log, shards_quick=2,
           rule="as log, but the interrupted trailing section holds only its header or header + one (possibly partial) "
                "line; the complete sections must still be returned in full; non-trivial = always (interrupted section)"),
+    Facet("log_sizes", log_case_st(sizes=BLOCKS_QUICK), check_log, quick=90, thorough=0, quick_budget_s=240.0, describe=describe_log,
+          shards_quick=2,
+          rule="size-boundary classes of the log reader: one section with B-1, B, B+1, 2B-1, 2B+1, B+B//3 rows for B in "
+               "{32, 64, 100, 128, 256} (seeded values), or that many sections for B in {32, 64} with 1-3 rows each (seeded)"),
+    Facet("log_sizes_large", log_case_st(sizes=BLOCKS_ALL), check_log, quick=0, thorough=1600, describe=describe_log,
+          rule="thorough tier only: as log_sizes with B up to 1024 (rows up to 2049, sections up to 257)"),
+    Facet("log_sequence", log_sequence_st(), check_log_sequence, quick=60, thorough=8000, quick_budget_s=240.0, describe=describe_log_sequence,
+          rule="2-3 logs written one after the other under the same file name x 3-6 reads; every list of DataFrames is "
+               "compared at return, copied, and examined again after the last read; non-trivial = the file was rewritten"),
     Facet("log_quoted_text", log_case_st(quotes=True), check_log, quick=300, thorough=20000, describe=describe_log,
           shards_quick=2,
           rule="as log with >= 1 complete section and >= 1 echoed input line carrying an odd number of double quotes "
